@@ -130,6 +130,9 @@ def inputs(tier, wd, rng):
     FIXED = ['struct rec cache; struct rec *slotp = &cache; struct rec { long key; char tag; };', 'union u2 slot; union u2 { double d; char c; }; void *ps = &slot;',
              'static struct late sl; struct late { _Alignas(32) char c; }; void *pl = &sl;', 'struct fw gfw[]; struct fw { short s; }; struct fw gfw[3];', 'int tarr[]; int *ptarr = tarr; int tarr[5];',
              'struct inc; extern struct inc einc; struct inc *pinc = &einc; struct inc { char c[7]; }; struct inc einc = { "abc" };',
+             'struct inc2; extern struct inc2 einc2; struct inc2 { long a; char b; }; struct inc2 einc2 = { 1, 2 };', 'extern union inc3 einc3; union inc3 { double d; char c; }; union inc3 einc3 = { 1.5 };',
+             'extern struct inc4 einc4; extern struct inc4 einc4; struct inc4 { _Alignas(64) char c; int i; }; struct inc4 einc4 = { 1 }; struct inc4 *pinc4 = &einc4;',
+             'extern struct inc5 einc5; struct inc5 { long double ld; }; struct inc5 einc5; void *pinc5 = &einc5;', 'static struct inc6 sinc6; struct inc6 { void *p; char c; }; static struct inc6 sinc6 = { &sinc6, 1 }; void *pinc6 = &sinc6;',
              'struct e2 { long l; }; static struct e2 t1, t2; static struct e2 t1 = { 5 }; void *pt[] = { &t1, &t2 };',
              '_Thread_local struct tlt { int a; long b; } tv1; static _Thread_local struct tlt tv2 = { 1, 2 }; long rd(void) { return tv1.b + tv2.a; }']
     fdir = os.path.join(wd, 'fixed')
